@@ -41,6 +41,7 @@ from .expressions import parse_keyword_arguments
 from .expressions import parse_parameters
 from .expressions import parse_positional_and_keyword_arguments
 from .expressions import parse_primitive
+from .expressions import identifier_str
 from .expressions import parse_string_or_identifier
 from .expressions import parse_string_or_path
 from .filters.array import concat
@@ -212,6 +213,7 @@ __all__ = (
     "parse_keyword_arguments",
     "parse_positional_and_keyword_arguments",
     "parse_primitive",
+    "identifier_str",
     "parse_string_or_identifier",
     "Path",
     "plus",
